@@ -198,11 +198,20 @@ def run_tlapm(rel_path: str, timeout: int = 900) -> dict:
     import time
     src = SPEC / rel_path
     t0 = time.time()
-    with tempfile.TemporaryDirectory(prefix="rvtlaps") as tmp:
-        shutil.copy(src, tmp)
-        out = subprocess.run(["tlapm", src.name], cwd=tmp, capture_output=True, text=True, timeout=timeout)
-    text = out.stdout + out.stderr
-    m = re.search(r"All (\d+) obligations? proved", text)
+    m, text = None, ""
+    for attempt in range(3):            # a loaded machine can starve a back-end prover: try again with longer time-outs
+        with tempfile.TemporaryDirectory(prefix="rvtlaps") as tmp:
+            shutil.copy(src, tmp)
+            cmd = ["tlapm"] + (["--stretch", str(3 * attempt)] if attempt else []) + [src.name]
+            try:
+                out = subprocess.run(cmd, cwd=tmp, capture_output=True, text=True, timeout=timeout)
+                text = out.stdout + out.stderr
+            except subprocess.TimeoutExpired:
+                text = "tlapm timed out"
+        m = re.search(r"All (\d+) obligations? proved", text)
+        if m:
+            break
+        time.sleep(2 + 5 * attempt)
     if not m:
         raise MachineryError(f"TLAPS did not prove {rel_path}:\n" + "\n".join(text.splitlines()[-25:]))
     return {"module": rel_path, "obligations": int(m.group(1)), "proved": True, "wall_s": round(time.time() - t0, 2)}
